@@ -28,6 +28,11 @@
      hp_run   less l ops          : hp_res (list A * list (option A))   a call sequence
      hp_heap less l  : Prop       the heap invariant: for every valid child index c > 0,
                                   less l[c] l[(c-1)/2] = false
+     hp_asym less, hp_negtrans less : Prop   what the lemmas assume of less (strict part of
+                                  a total preorder)
+     bookkeeping for statements about call sequences:
+       hp_basic op (Push/Pop/Top only), hp_no_underflow n ops, hp_pushed ops,
+       hp_popped ops outs, hp_op_valid n op, hp_size_after n op, hp_ops_valid n ops
      instance used by the differential test against std.PriorityQueue:
        hp_zitem = Z * Z (priority, id),  hp_zless a b = fst a <? fst b
 
@@ -284,6 +289,28 @@ Section HeapModel.
     | [] => []
     | HpPush x :: r => x :: hp_pushed r
     | _ :: r => hp_pushed r
+    end.
+
+  (* validity of arbitrary call sequences: no Pop on an empty queue, Fix/Remove index in range *)
+  Definition hp_op_valid (n : nat) (op : hp_op) : bool :=
+    match op with
+    | HpPush _ | HpTop => true
+    | HpPop => (0 <? n)%nat
+    | HpFixAt i _ => (i <? n)%nat
+    | HpRemoveAt i => (i <? n)%nat
+    end.
+
+  Definition hp_size_after (n : nat) (op : hp_op) : nat :=
+    match op with
+    | HpPush _ => S n
+    | HpPop | HpRemoveAt _ => (n - 1)%nat
+    | HpTop | HpFixAt _ _ => n
+    end.
+
+  Fixpoint hp_ops_valid (n : nat) (ops : list hp_op) : bool :=
+    match ops with
+    | [] => true
+    | op :: r => hp_op_valid n op && hp_ops_valid (hp_size_after n op) r
     end.
 
   (* values returned by the Pop calls of a run *)
